@@ -1,14 +1,19 @@
 (* A posteriori 2D ray tracing (gen/Ray2d.v, source /repo/fteikpy/_fteik/_ray2d.py).
 
    Generic in the numeric type T unless stated otherwise:
-     1. ray2d_core_outside, ray2d_raises_value_error_iff (+ ray2d_nan_end_point_raises for binary64)
+     1. ray2d_core_outside, ray2d_outside_raises, ray2d_raises_value_error_iff,
+        ray2d_nan_end_point_raises (binary64)
      2. ray2d_free_terminates      (honor_grid = false, fuel >= max_step + 1)
-     3. ray2d_honor_terminates     (honor_grid = true, fuel >= (max_step + 1) * (nfree_max + 2) + 1)
+     3. ray2d_terminates / ray2d_honor_terminates
+                                   (fuel >= (max_step + 1) * (nfree_max + 2) + 1, either mode)
      4. ray2d_core_count_range
      5. ray2d_core_endpoints, ray2d_1_endpoints
-     6. ray2d_vertices_in_hull     (T := R)
-     7. ray2d_vectorized_spec, ray2d_list_raises_like_first_failing_single
+     6. ray2d_vertices_in_hull     (T := R; grid mode needs axis_ok, e.g. ascending axes)
+     7. ray2d_vectorized_spec, ray2d_vectorized_as_singles,
+        ray2d_list_raises_like_first_failing_single
 
+   Method: ray2d_core_char exhibits the loop (cond, body, initial state) of the generated core and
+   proves step_spec for one execution of the body; everything else only uses step_spec.
    The first part (sections While, Blocks, MapM) is generic and reused by Ray3dProofs.v. *)
 From Coq Require Import ZArith List Bool Lia Reals Lra.
 From FT.lib Require Import Num Arr ArrLemmas NumArr.
